@@ -325,14 +325,14 @@ Proof.
 Qed.
 
 Lemma fresh_entry_ok s c : In (s, c) B ->
-  exists dd, find_obs (st_path s) (view_of R) = Some dd /\ entry_ok (created_by_transfer A s) s c dd.
+  exists dd, find_obs (st_path s) (view_of R) = Some dd /\ entry_ok (inode_created A B s) s c dd.
 Proof.
   intros Hin. destruct (fresh_at s c Hin) as (x & Hx & Hs & Hb).
   exists (obs_of_dentry (st_path s) x). rewrite find_obs_view_of, Hx. split; [reflexivity|].
   destruct (same_file_fields _ _ _ Hs) as (_ & Hc & Hnd).
   destruct (compare_stat_fields _ _ Hc) as (Em & Eu & Eg & Ema & Emi & El).
-  assert (Hcr : created_by_transfer A s = true -> de_stat x = s).
-  { intros Hcr. destruct (fresh_created s c Hin Hcr) as (e & He & Es). rewrite Hx in He. inversion He; subst. auto. }
+  assert (Hcr : inode_created A B s = true -> de_stat x = s).
+  { intros Hcr. unfold inode_created in Hcr. apply andb_true_iff in Hcr. destruct Hcr as [Hcr _]. destruct (fresh_created s c Hin Hcr) as (e & He & Es). rewrite Hx in He. inversion He; subst. auto. }
   unfold entry_ok, obs_of_dentry. cbv zeta. simpl.
   rewrite Em. split; [reflexivity|]. split; [reflexivity|]. split; [reflexivity|].
   split; [auto|]. split; [auto|].
